@@ -32,6 +32,14 @@ void vf_input_arr(const char *name, void *dst, size_t elem, size_t n) {
         memcpy((char *)dst + i * elem, &v, elem); /* little-endian host */
     }
 }
+void vf_input_arr2(const char *name, void *dst, size_t elem, size_t n, size_t m) {
+    char key[160];
+    for (size_t i = 0; i < n; i++) for (size_t j = 0; j < m; j++) {
+        snprintf(key, sizeof key, "%s[%zu][%zu]", name, i, j);
+        uint64_t v = vf_input(key, 0);
+        memcpy((char *)dst + (i * m + j) * elem, &v, elem);
+    }
+}
 void vf_out(const char *name, uint64_t v) { printf("VF_OUT %s %llu\n", name, (unsigned long long)v); }
 #ifdef __cplusplus
 }
